@@ -189,6 +189,13 @@ impl NonOwningDecoder {
                 if (b == 0x1b && *num_init_seq_bytes < 4) || (b == 0x01 && *num_init_seq_bytes >= 4)
                 {
                     *num_init_seq_bytes += 1;
+                } else if b == 0x1b {
+                    // mismatch, but the current byte can itself belong to a start sequence:
+                    // a fifth 0x1b still leaves the last four 0x1b matched, and a 0x1b
+                    // after `1b1b1b1b 01..` is the first byte of a new attempt.
+                    let keep = if *num_init_seq_bytes == 4 { 4 } else { 1 };
+                    *num_discarded_bytes += 1 + u16::from(*num_init_seq_bytes) - keep;
+                    *num_init_seq_bytes = keep as u8;
                 } else {
                     *num_discarded_bytes += 1 + u16::from(*num_init_seq_bytes);
                     *num_init_seq_bytes = 0;
